@@ -55,7 +55,12 @@ pub struct Case {
     pub reads: ReadPlan,
     pub fault: Fault,
     pub allow_compression: bool,
+    /// index into STATUSES (redirect following is switched off, so 3xx responses reach the caller)
+    #[serde(default)]
+    pub status: u8,
 }
+
+pub const STATUSES: &[u16] = &[200, 200, 200, 201, 206, 404, 500, 300, 301, 302, 307, 308];
 
 pub struct C06;
 
@@ -198,9 +203,9 @@ non-trivial = payload non-empty and one of {>=2 deflate blocks, >=2 segments, a 
                 2 => any::<u16>().prop_map(Fault::Trunc),
                 2 => (0u8..64).prop_map(Fault::TrailerBit),
             ],
-            prop::bool::weighted(0.85),
+            (prop::bool::weighted(0.85), 0u8..STATUSES.len() as u8),
         )
-            .prop_map(|(payload, coding, encoder, gz, via_te, token_style, method, framing, seg, reads, fault, allow_compression)| Case {
+            .prop_map(|(payload, coding, encoder, gz, via_te, token_style, method, framing, seg, reads, fault, (allow_compression, status))| Case {
                 payload,
                 coding,
                 encoder,
@@ -213,6 +218,7 @@ non-trivial = payload non-empty and one of {>=2 deflate blocks, >=2 segments, a 
                 reads,
                 fault,
                 allow_compression,
+                status,
             })
             .boxed()
     }
@@ -294,7 +300,8 @@ non-trivial = payload non-empty and one of {>=2 deflate blocks, >=2 segments, a 
                     }
                 }
             }
-            let mut built = build_response(200, &headers, &framing, 0, &body);
+            let status = STATUSES[case.status as usize % STATUSES.len()];
+            let mut built = build_response(status, &headers, &framing, 0, &body);
             if let Some(te) = &te_override {
                 // replace the plain "Transfer-Encoding: chunked" value by the list
                 let needle = b"Transfer-Encoding: chunked\r\n";
@@ -316,6 +323,7 @@ non-trivial = payload non-empty and one of {>=2 deflate blocks, >=2 segments, a 
             let res = attohttpc::RequestBuilder::new(method.clone(), BASE_URL)
                 .proxy_settings(no_proxy())
                 .allow_compression(case.allow_compression)
+                .follow_redirects(false)
                 .send();
             // Accept-Encoding announced exactly when compression is allowed
             {
@@ -440,6 +448,8 @@ non-trivial = payload non-empty and one of {>=2 deflate blocks, >=2 segments, a 
         ctx.label_if(gz_fields, "gzip-optional-fields");
         ctx.label_if(case.via_te, "declared-via-transfer-encoding");
         ctx.label_if(case.method == 2, "head");
+        ctx.label_if(STATUSES[case.status as usize % STATUSES.len()] / 100 == 3, "status-3xx");
+        ctx.label_if(STATUSES[case.status as usize % STATUSES.len()] >= 400, "status-4xx/5xx");
         ctx.label_if(b.blocks >= 2, "multi-block");
         ctx.label_if(payload.len() > 65536, "payload>64KiB");
         ctx.label_if(case.token_style % 5 == 3, "token-in-list");
